@@ -11,6 +11,7 @@ import (
 	"strconv"
 	"strings"
 	"sync"
+	"syscall"
 	"time"
 )
 
@@ -40,18 +41,18 @@ type Script struct {
 	Headers      [][2]string `json:"headers,omitempty"`
 	Interim      []Interim   `json:"interim,omitempty"`
 	Steps        []Step      `json:"steps,omitempty"`
-	Framing      string      `json:"framing,omitempty"` // "" (server decides) | cl | chunked
+	Framing      string      `json:"framing,omitempty"`  // "" (server decides) | cl | chunked
 	Declared     int         `json:"declared,omitempty"` // with cl: declare this many instead of the real total
 	Trailers     [][2]string `json:"trailers,omitempty"`
 	SkipBody     bool        `json:"skip_body,omitempty"`
 	Seed         int         `json:"seed,omitempty"`
 	Compressible bool        `json:"compressible,omitempty"`
-	Raw          string      `json:"raw,omitempty"`      // hijack and write these literal bytes, then close
-	RawReset     bool        `json:"raw_reset,omitempty"` // close with RST after Raw
-	Gzip         bool        `json:"gzip,omitempty"`     // body bytes are a gzip stream of the generated body
-	HangFirst    bool        `json:"hang_first,omitempty"` // never send a header block (wait until the peer gives up)
+	Raw          string      `json:"raw,omitempty"`           // hijack and write these literal bytes, then close
+	RawReset     bool        `json:"raw_reset,omitempty"`     // close with RST after Raw
+	Gzip         bool        `json:"gzip,omitempty"`          // body bytes are a gzip stream of the generated body
+	HangFirst    bool        `json:"hang_first,omitempty"`    // never send a header block (wait until the peer gives up)
 	HoldFirstMs  int         `json:"hold_first_ms,omitempty"` // wait this long before sending the header block
-	Implicit     bool        `json:"implicit,omitempty"`   // do not call WriteHeader: the first Write / the end of the handler commits the status (200)
+	Implicit     bool        `json:"implicit,omitempty"`      // do not call WriteHeader: the first Write / the end of the handler commits the status (200)
 }
 
 // Encode renders the script for the ScriptHeader.
@@ -135,6 +136,8 @@ type Backend struct {
 	ProbeDelay  time.Duration
 	probes      []int64
 	probeLog    []ProbeEntry
+	reservedFD  int
+	lost        bool
 	holds       map[string]chan struct{}
 	inflight    int
 	extra       http.Handler
@@ -158,24 +161,49 @@ func (b *Backend) SetExtra(h http.Handler) { b.extra = h }
 // Handler returns the scripted handler itself (to place it directly behind a middleware chain).
 func (b *Backend) Handler() http.Handler { return http.HandlerFunc(b.serve) }
 
-// Down closes the listener and all connections: connections are refused until Up.
+// Down closes the listener and all connections: connections are refused until Up. The port is kept reserved by a
+// bound, non-listening socket (connecting to it is refused), so that no other process can be handed the port while
+// the backend is down - parallel shards create listeners all the time.
 func (b *Backend) Down() {
 	b.srv.Close()
+	b.reserve()
 }
 
-// Up listens again on the same address.
+func (b *Backend) reserve() {
+	_, portStr, _ := net.SplitHostPort(b.Addr)
+	port, _ := strconv.Atoi(portStr)
+	fd, err := syscall.Socket(syscall.AF_INET, syscall.SOCK_STREAM, 0)
+	if err != nil {
+		return
+	}
+	syscall.SetsockoptInt(fd, syscall.SOL_SOCKET, syscall.SO_REUSEADDR, 1)
+	if err := syscall.Bind(fd, &syscall.SockaddrInet4{Port: port, Addr: [4]byte{127, 0, 0, 1}}); err != nil {
+		syscall.Close(fd)
+		return
+	}
+	b.reservedFD = fd
+}
+
+// Up listens again on the same address. If the port has been lost to another process after all, the running
+// case is flagged as disturbed (it is re-executed by the framework) instead of crashing the child.
 func (b *Backend) Up() {
+	if b.reservedFD > 0 {
+		syscall.Close(b.reservedFD)
+		b.reservedFD = 0
+	}
 	var ln net.Listener
 	var err error
-	for i := 0; i < 50; i++ {
+	for i := 0; i < 300; i++ {
 		ln, err = net.Listen("tcp", b.Addr)
 		if err == nil {
 			break
 		}
-		time.Sleep(time.Millisecond)
+		RealSleep(int64(time.Millisecond))
 	}
 	if err != nil {
-		panic("backend up: " + err.Error())
+		FlagAnomaly("scripted backend could not listen on its port again: " + err.Error())
+		b.lost = true
+		return
 	}
 	b.ln = ln
 	b.srv = &http.Server{Handler: http.HandlerFunc(b.serve)}
